@@ -1,7 +1,7 @@
 (* C13 - the validation hook of the emitter ("validate, then encode") cannot change what an accepted instruction encodes to,
    and a refusal leaves the emitter state untouched. `validate` itself is a function of the tables, the mode, the instruction
    and its operands only (it has no state argument), which is what the statements below rest on. *)
-From Coq Require Import NArith ZArith List Bool.
+From Coq Require Import NArith ZArith List Bool Lia.
 From Verif Require Import X86Validate.ValidateModel.
 Import ListNotations.
 Local Open Scope N_scope.
@@ -40,8 +40,13 @@ Qed.
 Lemma forallb_In : forall (A : Type) (f : A -> bool) l, forallb f l = true -> forall x, In x l -> f x = true.
 Proof. intros A f l H x. apply (proj1 (forallb_forall f l) H). Qed.
 
-Definition accepts_with (T : vtables) (c : bool * vinst * list operand) : bool :=
-  let '(x64, i, ops) := c in validate T false x64 false i ops =? E_Ok.
+
+Lemma forallb_concat : forall (A : Type) (f : A -> bool) (ls : list (list A)),
+  forallb (fun l => forallb f l) ls = true -> forallb f (concat ls) = true.
+Proof.
+  induction ls as [|l ls IH]; intros H; cbn in *; [reflexivity|].
+  apply andb_true_iff in H. destruct H as [H1 H2]. rewrite forallb_app, H1, (IH H2). reflexivity.
+Qed.
 
 Lemma forms_accepted : forall T l, forallb (accepts_with T) l = true ->
   forall x64 i ops, In (x64, i, ops) l -> validate T false x64 false i ops = E_Ok.
@@ -114,6 +119,8 @@ Proof.
   { apply negb_true_iff, N.eqb_neq in MD. congruence. }
   match type of H with (if negb (?e =? E_Ok) then _ else _) = _ => destruct (negb (e =? E_Ok)) eqn:SG end.
   { apply negb_true_iff, N.eqb_neq in SG. congruence. }
+  match type of H with (if negb (?e =? E_Ok) then _ else _) = _ => destruct (negb (e =? E_Ok)) eqn:EV end.
+  { apply negb_true_iff, N.eqb_neq in EV. congruence. }
   exists iflags, avx, sidx, scnt, st, rest. split; [reflexivity|]. split; [exact XL|]. split; [exact GAP|]. split.
   - intros ->. cbn [negb] in MD. apply negb_false_iff, N.eqb_eq in MD.
     destruct (test (xs_flags st) OF_RegGpq); [cdisc MD|reflexivity].
@@ -191,4 +198,229 @@ Proof.
   exists iflags, avx, sidx, scnt, st, rest. repeat (split; [assumption|]).
   destruct S as [Z|(s & I & M)]; [left; exact Z|right]. exists s. split; [exact I|]. split; [|exact M].
   unfold match_sig in M. destruct (test (is_mode s) (mode_bit x64)); [reflexivity|discriminate].
+Qed.
+
+(* ------------------------------------------------------------------ a database row contained in the signature tables => the signature stage of
+   validate accepts EVERY operand list of the kinds the row names (bridge from C13_signature_rows_present to the validator) *)
+Ltac bits := apply N.bits_inj; intro; rewrite ?N.land_spec, ?N.lor_spec, ?N.bits_0;
+  repeat match goal with |- context [N.testbit ?x ?n] => destruct (N.testbit x n) end; reflexivity.
+
+Lemma test_false_iff : forall a b, test a b = false <-> N.land a b = 0.
+Proof. intros. unfold test. rewrite negb_false_iff, N.eqb_eq. tauto. Qed.
+
+Lemma test_subset : forall x a b m, N.land b a = a -> test (N.land x a) m = true -> test (N.land x b) m = true.
+Proof.
+  intros x a b m S H. destruct (test (N.land x b) m) eqn:E; [reflexivity|exfalso].
+  apply test_false_iff in E.
+  assert (Z : N.land (N.land x a) m = 0).
+  { rewrite <- S. replace (N.land (N.land x (N.land b a)) m) with (N.land (N.land (N.land x b) m) a) by bits.
+    rewrite E. apply N.land_0_l. }
+  unfold test in H. rewrite Z in H. discriminate.
+Qed.
+
+Lemma test_comm : forall a b, test a b = test b a.
+Proof. intros. unfold test. rewrite N.land_comm. reflexivity. Qed.
+
+Lemma check_op_sig_ok : forall need fixed op ref,
+  op_admitted (need, fixed, false) ref = true -> op_fits (need, fixed, false) op = true -> check_op_sig op ref = (true, false).
+Proof.
+  intros need fixed [fl mk] [rf rm] A F. unfold op_admitted in A. unfold op_fits in F. cbn [fst snd] in *.
+  apply andb_true_iff in A. destruct A as [A A4]. apply andb_true_iff in A. destruct A as [A A3].
+  apply andb_true_iff in A. destruct A as [A1 A2]. apply N.eqb_eq in A1. apply eqb_prop in A2, A3.
+  apply andb_true_iff in F. destruct F as [F F4]. apply andb_true_iff in F. destruct F as [F F3].
+  apply andb_true_iff in F. destruct F as [F1 F2].
+  unfold check_op_sig. cbn [fst snd].
+  assert (C : test (N.land fl rf) OF_OpMask = true) by (eapply test_subset; eauto).
+  rewrite C. cbn [negb].
+  (* memory base clause *)
+  assert (MB : test (N.land fl rf) OF_MemMask && test rf OF_FlagMemBase && negb (test fl OF_FlagMemBase) = false).
+  { destruct (test rf OF_FlagMemBase) eqn:R; [|rewrite andb_false_r; reflexivity].
+    rewrite <- A3 in F3. cbn [negb orb] in F3. rewrite F3. cbn [negb]. rewrite andb_false_r. reflexivity. }
+  rewrite MB.
+  (* register mask clause *)
+  assert (RM : test (N.land fl rf) OF_RegMask && negb (rm =? 0) && negb (test mk rm) = false).
+  { destruct (test need OF_RegMask) eqn:NR.
+    - destruct (fixed =? 0) eqn:FX.
+      + rewrite A4. cbn [negb]. rewrite andb_false_r. reflexivity.
+      + cbn [orb] in F4. apply N.eqb_eq in F4. subst mk.
+        apply orb_true_iff in A4. destruct A4 as [A4|A4].
+        * rewrite A4. cbn [negb]. rewrite andb_false_r. reflexivity.
+        * rewrite (test_comm fixed rm), A4. cbn [negb]. rewrite andb_false_r. reflexivity.
+    - cbn [orb] in F2. apply negb_true_iff in F2.
+      assert (Z : test (N.land fl rf) OF_RegMask = false).
+      { apply test_false_iff. apply test_false_iff in F2.
+        replace (N.land (N.land fl rf) OF_RegMask) with (N.land (N.land fl OF_RegMask) rf) by bits. rewrite F2. apply N.land_0_l. }
+      rewrite Z. reflexivity. }
+  rewrite RM. reflexivity.
+Qed.
+
+Lemma match_implicit_ok : forall dbops refs ops,
+  ops_admitted dbops refs = true -> fits_all (explicit_ops dbops) ops = true -> match_implicit ops refs = (true, false).
+Proof.
+  induction dbops as [|[[need fixed] impl] dbs IH]; intros refs ops A F.
+  - destruct refs; [|discriminate]. cbn in F. destruct ops; [reflexivity|discriminate].
+  - destruct refs as [|r rs]; [discriminate|]. cbn [ops_admitted] in A.
+    apply andb_true_iff in A. destruct A as [A1 A2].
+    destruct impl.
+    + (* implicit database operand: the reference operand is flagged implicit and is skipped *)
+      cbn [explicit_ops filter snd negb] in F. fold (explicit_ops dbs) in F.
+      assert (I : test (fst r) OF_FlagImplicit = true).
+      { unfold op_admitted in A1. apply andb_true_iff in A1. destruct A1 as [A1 _]. apply andb_true_iff in A1. destruct A1 as [A1 _].
+        apply andb_true_iff in A1. destruct A1 as [_ A1]. apply eqb_prop in A1. exact A1. }
+      cbn [match_implicit]. destruct ops as [|o os]; [reflexivity|]. rewrite I. apply IH; assumption.
+    + cbn [explicit_ops filter snd negb] in F. fold (explicit_ops dbs) in F.
+      destruct ops as [|o os]; [discriminate|]. cbn [fits_all] in F. apply andb_true_iff in F. destruct F as [F1 F2].
+      assert (I : test (fst r) OF_FlagImplicit = false).
+      { unfold op_admitted in A1. apply andb_true_iff in A1. destruct A1 as [A1 _]. apply andb_true_iff in A1. destruct A1 as [A1 _].
+        apply andb_true_iff in A1. destruct A1 as [_ A1]. apply eqb_prop in A1. exact A1. }
+      cbn [match_implicit]. rewrite I. rewrite (check_op_sig_ok _ _ _ _ A1 F1). rewrite (IH _ _ A2 F2). reflexivity.
+Qed.
+
+(* without implicit operands the exact matcher agrees *)
+Lemma match_exact_ok : forall dbops refs ops,
+  ops_admitted dbops refs = true -> forallb (fun d => negb (snd d)) dbops = true -> fits_all dbops ops = true ->
+  match_exact ops refs = (true, false).
+Proof.
+  induction dbops as [|[[need fixed] impl] dbs IH]; intros refs ops A E F.
+  - destruct ops; [reflexivity|discriminate].
+  - destruct refs as [|r rs]; [discriminate|]. destruct ops as [|o os]; [discriminate|].
+    cbn [ops_admitted] in A. apply andb_true_iff in A. destruct A as [A1 A2].
+    cbn [forallb snd] in E. apply andb_true_iff in E. destruct E as [E1 E2]. apply negb_true_iff in E1. subst impl.
+    cbn [fits_all] in F. apply andb_true_iff in F. destruct F as [F1 F2].
+    cbn [match_exact]. rewrite (check_op_sig_ok _ _ _ _ A1 F1). rewrite (IH _ _ A2 E2 F2). reflexivity.
+Qed.
+
+Lemma ops_admitted_counts : forall dbops refs, ops_admitted dbops refs = true ->
+  length refs = length dbops /\
+  (length (filter (fun r => test (fst r) OF_FlagImplicit) refs) + length (explicit_ops dbops) = length dbops)%nat.
+Proof.
+  induction dbops as [|[[need fixed] impl] dbs IH]; intros refs A.
+  - destruct refs; [split; reflexivity|discriminate].
+  - destruct refs as [|r rs]; [discriminate|]. cbn [ops_admitted] in A. apply andb_true_iff in A. destruct A as [A1 A2].
+    destruct (IH _ A2) as [L C].
+    assert (I : test (fst r) OF_FlagImplicit = impl).
+    { unfold op_admitted in A1. apply andb_true_iff in A1. destruct A1 as [A1 _]. apply andb_true_iff in A1. destruct A1 as [A1 _].
+      apply andb_true_iff in A1. destruct A1 as [_ A1]. apply eqb_prop in A1. exact A1. }
+    split; [cbn [length]; congruence|].
+    cbn [filter explicit_ops snd]. fold (explicit_ops dbs). rewrite I. destruct impl; cbn [negb length]; lia.
+Qed.
+
+Lemma fits_all_length : forall dbops ops, fits_all dbops ops = true -> length ops = length dbops.
+Proof.
+  induction dbops as [|d ds IH]; intros [|o os] F; cbn in F; try discriminate; [reflexivity|].
+  apply andb_true_iff in F. destruct F as [_ F]. cbn [length]. rewrite (IH _ F). reflexivity.
+Qed.
+
+Lemma filter_len_le : forall (A : Type) (f : A -> bool) l, (length (filter f l) <= length l)%nat.
+Proof. induction l as [|x l IH]; cbn; [lia|]. destruct (f x); cbn; lia. Qed.
+
+Lemma explicit_all : forall dbops, length (explicit_ops dbops) = length dbops ->
+  explicit_ops dbops = dbops /\ forallb (fun d => negb (snd d)) dbops = true.
+Proof.
+  induction dbops as [|d ds IH]; intros L; [split; reflexivity|].
+  unfold explicit_ops in *. cbn [filter forallb] in *. destruct (negb (snd d)) eqn:E.
+  - cbn [length] in L. destruct (IH ltac:(lia)) as [I1 I2]. rewrite I1, I2. split; reflexivity.
+  - exfalso. pose proof (filter_len_le _ (fun d : N * N * bool => negb (snd d)) ds). cbn [length] in L. lia.
+Qed.
+
+Lemma test_mode_subset : forall sm rm mb, N.land sm rm = rm -> test rm mb = true -> test sm mb = true.
+Proof.
+  intros sm rm mb S H. destruct (test sm mb) eqn:E; [reflexivity|exfalso]. apply test_false_iff in E.
+  assert (Z : N.land rm mb = 0).
+  { rewrite <- S. replace (N.land (N.land sm rm) mb) with (N.land (N.land sm mb) rm) by bits. rewrite E. apply N.land_0_l. }
+  unfold test in H. rewrite Z in H. discriminate.
+Qed.
+
+Lemma match_sig_ok : forall T zq mb row s ops,
+  sig_wf T s = true -> sig_admits T row s = true -> test (dr_mode row) mb = true ->
+  fits_all (explicit_ops (dr_ops row)) ops = true ->
+  match_sig T zq mb ops s = Some false.
+Proof.
+  intros T zq mb row s ops W A M F.
+  unfold sig_admits in A. apply andb_true_iff in A. destruct A as [A1 A2]. apply N.eqb_eq in A1.
+  unfold sig_wf in W. apply andb_true_iff in W. destruct W as [W1 W2]. apply N.eqb_eq in W1, W2.
+  destruct (ops_admitted_counts _ _ A2) as [L C].
+  pose proof (fits_all_length _ _ F) as LF.
+  unfold match_sig. rewrite (test_mode_subset _ _ _ A1 M). cbn [negb].
+  destruct (is_op_count s =? N.of_nat (length ops)) eqn:E.
+  - apply N.eqb_eq in E.
+    assert (LE : length (explicit_ops (dr_ops row)) = length (dr_ops row)) by lia.
+    destruct (explicit_all _ LE) as [X1 X2]. rewrite X1 in F.
+    rewrite (match_exact_ok _ _ _ A2 X2 F). reflexivity.
+  - apply N.eqb_neq in E.
+    assert (E2 : is_op_count s - is_implicit s =? N.of_nat (length ops) = true) by (apply N.eqb_eq; lia).
+    rewrite E2. rewrite (match_implicit_ok _ _ _ A2 F). reflexivity.
+Qed.
+
+Lemma match_sigs_exists : forall T zq mb ops sigs g s,
+  In s sigs -> match_sig T zq mb ops s = Some false -> match_sigs T zq mb ops sigs g = E_Ok.
+Proof.
+  induction sigs as [|h rest IH]; intros g s I M; [destruct I|].
+  cbn [match_sigs]. destruct I as [->|I].
+  - rewrite M. reflexivity.
+  - destruct (match_sig T zq mb ops h) as [[|]|]; [eapply IH; eauto|reflexivity|eapply IH; eauto].
+Qed.
+
+Lemma in_firstn : forall (A : Type) n (l : list A) x, In x (firstn n l) -> In x l.
+Proof. induction n; intros [|y l] x H; cbn in *; try tauto. destruct H; [left; assumption|right; eauto]. Qed.
+
+Lemma in_skipn : forall (A : Type) n (l : list A) x, In x (skipn n l) -> In x l.
+Proof. induction n; intros [|y l] x H; cbn in *; try tauto. right. eauto. Qed.
+
+Lemma in_inst_sigs : forall T sidx scnt s, In s (inst_sigs T sidx scnt) -> In s (vt_isig T).
+Proof. intros T sidx scnt s I. unfold inst_sigs in I. eapply in_skipn. eapply in_firstn. exact I. Qed.
+
+(* the bridge: a contained database row => the signature stage accepts every operand list fitting the row's explicit operands *)
+Lemma row_present_signature_stage : forall T zq mb row ops iflags avx sidx scnt,
+  forallb (sig_wf T) (vt_isig T) = true ->
+  row_present T row = true ->
+  nth (N.to_nat (dr_inst row)) (vt_inst T) (0, 0, 0, 0) = (iflags, avx, sidx, scnt) ->
+  test (dr_mode row) mb = true ->
+  fits_all (explicit_ops (dr_ops row)) ops = true ->
+  match_sigs T zq mb ops (inst_sigs T sidx scnt) false = E_Ok.
+Proof.
+  intros T zq mb row ops iflags avx sidx scnt WF P ROW M F.
+  unfold row_present in P. rewrite ROW in P. apply andb_true_iff in P. destruct P as [_ P].
+  apply existsb_exists in P. destruct P as (s & I & A).
+  eapply match_sigs_exists; [exact I|].
+  eapply match_sig_ok; eauto.
+  exact (forallb_In _ (sig_wf T) _ WF s (in_inst_sigs _ _ _ _ I)).
+Qed.
+
+(* ------------------------------------------------------------------ converse (weak): every signature record has a database origin *)
+Lemma forallbi_nth : forall (A : Type) (f : N -> A -> bool) l k,
+  forallbi f k l = true -> forall j x, nth_error l j = Some x -> f (k + N.of_nat j) x = true.
+Proof.
+  induction l as [|y l IH]; intros k H j x E; [destruct j; discriminate|].
+  cbn [forallbi] in H. apply andb_true_iff in H. destruct H as [H1 H2].
+  destruct j as [|j].
+  - cbn in E. inversion E. subst. replace (k + N.of_nat 0) with k by lia. exact H1.
+  - cbn [nth_error] in E. specialize (IH _ H2 j x E). replace (k + N.of_nat (S j)) with (N.succ k + N.of_nat j) by lia. exact IH.
+Qed.
+
+Lemma in_nseq_v : forall len start x, In x (nseq_v start len) <-> start <= x < start + N.of_nat len.
+Proof.
+  induction len; intros start x; cbn [nseq_v In].
+  - split; [tauto|lia].
+  - rewrite IHlen. lia.
+Qed.
+
+Lemma sig_origin_filter : forall T rows iid s,
+  sig_origin T (filter (fun row => dr_inst row =? iid) rows) iid s = true -> sig_origin T rows iid s = true.
+Proof.
+  intros T rows iid s H. unfold sig_origin in *. cbv zeta in *. apply existsb_exists in H. destruct H as (row & I & P).
+  apply existsb_exists. exists row. split; [|exact P]. apply filter_In in I. tauto.
+Qed.
+
+Lemma records_origin : forall T rows exc, records_have_origin T rows exc = true ->
+  forall iid iflags avx sidx scnt, 1 <= iid < vt_count T ->
+  nth (N.to_nat iid) (vt_inst T) (0, 0, 0, 0) = (iflags, avx, sidx, scnt) ->
+  forall j s, nth_error (inst_sigs T sidx scnt) j = Some s ->
+  pair_in (iid, N.of_nat j) exc = true \/ sig_origin T rows iid s = true.
+Proof.
+  intros T rows exc H iid iflags avx sidx scnt R ROW j s E.
+  unfold records_have_origin in H.
+  pose proof (forallb_In _ _ _ H iid ltac:(apply in_nseq_v; lia)) as Q. cbv beta in Q. rewrite ROW in Q. cbv zeta in Q.
+  pose proof (forallbi_nth _ _ _ _ Q j s E) as Q2. cbv beta in Q2. replace (0 + N.of_nat j) with (N.of_nat j) in Q2 by lia.
+  apply orb_true_iff in Q2. destruct Q2 as [Q2|Q2]; [left; exact Q2|right; apply sig_origin_filter; exact Q2].
 Qed.
